@@ -45,7 +45,7 @@ class Serializer:
         return self.scalars[v]
 
     def code(self, kind, v):
-        key = (kind, v if isinstance(v, str) else (tuple(np.ravel(v).tolist()) if not np.isscalar(v) else float(v)))
+        key = (kind, v if isinstance(v, str) else (("seq",) + tuple(np.ravel(v).tolist()) if not np.isscalar(v) else float(v)))
         if key not in self.params:
             self.params[key] = len(self.params) + 1
         return self.params[key]
